@@ -1,1 +1,9 @@
-//! Shared helpers for the vstore check parts.
+//! Shared helpers for the vstore check parts (C07, C09): fixtures over
+//! `anda_object_store`'s two wrappers, the operation alphabet, the read
+//! battery and the comparison with the plain `InMemory` reference store.
+
+pub mod battery;
+pub mod fix;
+pub mod hist;
+pub mod ops;
+pub mod tamper;
